@@ -181,3 +181,39 @@ def region_takeover(case):
         elif w[0] == "range" and seen:
             return True
     return False
+
+
+def gen_registry_restart(rng, tier):
+    """C01: the registry is replaced by a fresh one that loads the snapshot of the current one (`reload`), at arbitrary
+    points of mixed histories; the model (`Naming.buildSnapshot` / `loadSnapshot`, round trip proved in Props/C01) must
+    predict the snapshot records (`snap`) and everything the registry answers afterwards"""
+    cases = []
+    for i in range(400 if tier == "thorough" else 40):
+        ops = []
+        now = 1000
+        for _ in range(rng.randrange(4, 16)):
+            now += rng.choice([1, 10, 100, 1000])
+            r = rng.random()
+            svc = rng.choice(SVCS)
+            addr = rng.choice(ADDRS)
+            if r < 0.6:
+                kw = {"eph": rng.choice([0, 0, 1])}
+                if rng.random() < 0.2:
+                    kw["healthy"] = 0
+                if rng.random() < 0.2:
+                    kw["en"] = 0
+                if rng.random() < 0.3:
+                    kw["tag"] = rng.choice(TAGS)
+                line, _ = upd(rng, svc, addr, rng.choice(["http", "http", "grpc", "sync"]), now, **kw)
+                ops.append(line)
+            elif r < 0.7:
+                ops.append("del svc=%s ip=%s port=%d cid=- now=%d" % (svc, addr[0], addr[1], now))
+            elif r < 0.78:
+                ops.append("raftrm svc=%s ip=%s port=%d now=%d" % (svc, addr[0], addr[1], now))
+            elif r < 0.86:
+                ops.append("snap now=%d" % now)
+            else:
+                ops += ["snap now=%d" % now, "reload now=%d" % now, "audit", "snap now=%d" % now]
+        ops += ["snap now=%d" % (now + 1), "reload now=%d" % (now + 2), "audit"] + ["all svc=%s" % s for s in SVCS] + ["info", "clients"]
+        cases.append(Case("registry-restart-%d" % i, ops, False, "random"))
+    return cases
